@@ -1,7 +1,8 @@
 (** Non-vacuity of the source-level statements of C06: the regenerated bodies are RUN (vm_compute) on concrete
     weighted tensors with garbage under the mask. *)
 From Coq Require Import List NArith ZArith Bool Arith QArith String.
-From Leaspy Require Import Base.Atoms Masked.Weighted Masked.Observed Masked.Source Masked.SourceProofs Masked.SourceTie.
+From Leaspy Require Import Base.Atoms Masked.Weighted Masked.Observed Masked.Pipeline Masked.Examples Masked.Source Masked.SourceProofs
+     Masked.SourceTie Masked.NoiseStd.
 From LeaspyGen Require Import GenC06.
 Import ListNotations.
 Local Close Scope Q_scope.
@@ -59,3 +60,35 @@ Example ex_gen_std :
 Proof.
   unfold gen_std. rewrite !gen_compute_std_from_variance. vm_compute. repeat split.
 Qed.
+
+(** the adopted noise estimate on the examples of Masked/Examples.v (whose hypotheses are [ex_noise_hypotheses]):
+    the F3 witness has variance 0 -> refused for both models, by both rules; with residuals and garbage (NaN / -inf under
+    the mask of y, +inf / NaN in the model there) both runs adopt sqrt(5/3), resp. (sqrt(1/2), sqrt(4)) *)
+Definition std_is (r : res std_outcome) (expected : option (list atom)) : bool :=
+  match r, expected with
+  | Ok StdRefused, None => true
+  | Ok (StdSqrt v), Some l => list_eqb atom_same (to_flat v) l
+  | _, _ => false
+  end.
+
+Example ex_noise_std :
+  std_is (noise_std_scalar tol5 ex_w_y w_model_a) None = true /\
+  std_is (noise_std_scalar tol5 ex_w_y w_model_b) None = true /\
+  std_is (noise_std_diagonal tol5 ex_w_y w_model_a) None = true /\
+  std_is (noise_std_scalar tol5 ex_y_nan ex_model_pinf) (Some [Fin (5 # 3)]) = true /\
+  std_is (noise_std_scalar tol5 ex_y_ninf ex_model_nan) (Some [Fin (5 # 3)]) = true /\
+  std_is (noise_std_diagonal tol5 ex_y_nan ex_model_pinf) (Some [Fin (1 # 2); q 4]) = true /\
+  std_is (noise_std_diagonal tol5 ex_y_ninf ex_model_nan) (Some [Fin (1 # 2); q 4]) = true.
+Proof. repeat split; vm_compute; reflexivity. Qed.
+
+(** the checker accepts a correctly rounded float64 square root of 5/3 and of (1/2, 4), rejects the square root of the former
+    rule's 25/3 and a refusal *)
+Example ex_check_noise_std_case :
+  check_noise_std_case (false, [2; 1; 2], [Fin 1; NaN; Fin 2; Fin 3], [1; 0; 1; 1]%N, [Fin 0; PInf; Fin 2; Fin 5], tol5,
+                        ObsSqrt [Fin (5814122118263953 # 4503599627370496)]) = true /\
+  check_noise_std_case (true, [2; 1; 2], [Fin 1; NaN; Fin 2; Fin 3], [1; 0; 1; 1]%N, [Fin 0; PInf; Fin 2; Fin 5], tol5,
+                        ObsSqrt [Fin (6369051672525773 # 9007199254740992); q 2]) = true /\
+  check_noise_std_case (false, [2; 1; 2], [Fin 1; NaN; Fin 2; Fin 3], [1; 0; 1; 1]%N, [Fin 0; PInf; Fin 2; Fin 5], tol5,
+                        ObsSqrt [Fin (1625096535740409 # 562949953421312)]) = false /\
+  check_noise_std_case (false, [2; 1; 2], [Fin 1; NaN; Fin 2; Fin 3], [1; 0; 1; 1]%N, [Fin 0; PInf; Fin 2; Fin 5], tol5, ObsRefused) = false.
+Proof. repeat split; vm_compute; reflexivity. Qed.
